@@ -389,3 +389,86 @@ Proof.
     pose proof (find_bid_some _ _ _ _ B) as (_ & Hb & _). frame_tac.
   - rewrite T0 in T. injection T as <-. destruct C as (tr & al & -> & K). frame_tac2.
 Qed.
+
+Definition creation (s : state) (o : op) (out : outcome) (s' : state) (a : auction) : Prop :=
+  (exists m, o = OTx m /\ is_create m = true) /\ out = Accepted /\
+  st_auctions s' = st_auctions s ++ [a] /\ a_id a = st_aseq s /\ st_aseq s' = (st_aseq s + 1)%N /\
+  a_status a = (if a_start a <=? st_now s then Started else StandBy) /\
+  (exists e, a_ends a = [e]) /\ (a_max_round a <= 30)%N /\ (a_type a = FixedPrice -> a_max_round a = 0%N).
+
+Ltac shape_cases Sh :=
+  destruct Sh as [o c tr s' -> | from to d amt b xs | ls | auth cfee bfee period p
+    | m a0 s' Hc C Hid Hst He Hm Hf | who id a0 s' F0 S0 C | who id bt price coin a0 nb s' F0 S0 B1 B2 C
+    | who id bid price coin a0 b0 p amt s' F0 S0 B C | o id a0 s' T0 A F0 C ];
+  [ | | | | destruct C as (b & xs & tr & tr' & K & ->) | destruct C as (b & xs & tr & K & ->)
+    | destruct C as (b & xs & tr & s2 & K & [->|(x & ->)] & ->) | destruct C as (b & xs & tr & K & ->)
+    | destruct C as (tr & al & -> & K) ].
+
+Lemma tx_auction_list s o out s' :
+  tx_shape s o out s' ->
+  (exists a, creation s o out s' a)
+  \/ (map a_id (st_auctions s') = map a_id (st_auctions s) /\ st_aseq s' = st_aseq s).
+Proof.
+  intros Sh. shape_cases Sh; try (right; split; reflexivity).
+  - left. exists a0. unfold creation. repeat split; try assumption; try reflexivity. exists m. auto.
+  - right. split; [|reflexivity]. apply map_id_put.
+  - right. split; [|reflexivity]. apply map_id_put.
+Qed.
+
+Lemma tx_create s m s' :
+  tx_shape s (OTx m) Accepted s' -> is_create m = true -> exists a, creation s (OTx m) Accepted s' a.
+Proof.
+  intros Sh Hc. destruct (tx_auction_list _ _ _ _ Sh) as [H|_]; [exact H|].
+  inversion Sh; subst; try discriminate Hc.
+  - destruct H1 as (b & xs & tr & tr' & K & ->). exists a. unfold creation.
+    repeat split; try assumption; try reflexivity. exists m. auto.
+  - destruct m; discriminate.
+Qed.
+
+Lemma tx_rejected s o c s' : tx_shape s o (Rejected c) s' -> exists tr, s' = with_trace s tr.
+Proof. intros Sh. inversion Sh; subst. eauto. Qed.
+
+Lemma tx_place s who id bt price coin s' :
+  tx_shape s (OTx (MPlaceBid who id bt price coin)) Accepted s' ->
+  exists a nb, find_auction s id = Some a /\ a_status a = Started /\
+    st_bids s' = st_bids s ++ [nb] /\ b_auction nb = id /\ b_id nb = (st_bseq s id + 1)%N /\
+    st_bseq s' = upd (st_bseq s) id (st_bseq s id + 1)%N.
+Proof.
+  intros Sh. inversion Sh; subst; try discriminate.
+  - match goal with H : placed _ _ _ _ _ |- _ => destruct H as (b & xs & tr & s2 & K & [->|(x & ->)] & ->) end;
+      exists a, nb; repeat split; assumption || reflexivity.
+Qed.
+
+Lemma tx_modify s who id bid price coin s' :
+  tx_shape s (OTx (MModifyBid who id bid price coin)) Accepted s' ->
+  exists a b0, find_auction s id = Some a /\ a_status a = Started /\ find_bid s id bid = Some b0 /\
+    exists p amt, st_bids s' = st_bids (put_bid s (set_b_terms b0 p amt)).
+Proof.
+  intros Sh. inversion Sh; subst; try discriminate.
+  - match goal with H : modified _ _ _ _ _ _ |- _ => destruct H as (b & xs & tr & K & ->) end.
+    exists a, b0. repeat split; try assumption. exists p, amt. reflexivity.
+Qed.
+
+Lemma tx_bseq s o out s' :
+  tx_shape s o out s' ->
+  st_bseq s' = st_bseq s \/ (out = Accepted /\ exists who id bt price coin, o = OTx (MPlaceBid who id bt price coin)).
+Proof.
+  intros Sh. shape_cases Sh; try (left; reflexivity).
+  - right. split; [reflexivity|]. do 5 eexists. reflexivity.
+  - right. split; [reflexivity|]. do 5 eexists. reflexivity.
+Qed.
+
+Lemma bid_keys_set_terms b p amt : bid_keys_eq b (set_b_terms b p amt).
+Proof. repeat split. Qed.
+Lemma bid_keys_set_matched b x : bid_keys_eq b (set_b_matched b x).
+Proof. repeat split. Qed.
+
+Lemma tx_bids_evolve s o out s' : tx_shape s o out s' -> bids_evolve s s'.
+Proof.
+  intros Sh. shape_cases Sh; try (apply bids_evolve_same; reflexivity).
+  - eapply bids_evolve_app. reflexivity.
+  - eapply bids_evolve_app. reflexivity.
+  - pose proof (find_bid_some _ _ _ _ B) as (_ & Hb1 & Hb2).
+    eapply (bids_evolve_put_bid s _ b0 (set_b_terms b0 p amt)); [reflexivity| |apply bid_keys_set_terms].
+    cbn [b_auction b_id set_b_terms]. rewrite Hb1, Hb2. exact B.
+Qed.
